@@ -118,7 +118,8 @@ def ty_src(t, defs):
         return q('Literal') + '[' + ', '.join(lit_src(v) for v in t['vs']) + ']'
     if k == 'enum':
         if t['name'] not in defs:
-            body = '\n'.join(f'    {m} = {lit_src(v)}' for m, v in t['members'])
+            # optional `body`: further lines of the class body (a `_missing_` hook, ...)
+            body = '\n'.join(f'    {m} = {lit_src(v)}' for m, v in t['members']) + ('\n' + t['body'] if t.get('body') else '')
             pn = t.get('pyname') or t['name']
             defs[t['name']] = wrap_def(t['name'], t.get('pyname'), f'class {pn}({enum_bases(t)}):\n{body}\n')
         return t['name']
@@ -233,6 +234,8 @@ def enum_bases(t):
         return q('Enum')
     if mx in ('IntEnum', 'StrEnum'):
         return q(mx) if SAFE else '_en.' + mx
+    if mx in ('Flag', 'IntFlag'):
+        return '_en.' + mx
     return f'{q(mx)}, {q("Enum")}'
 
 
